@@ -1,6 +1,7 @@
 import Bifrost.Model.Incoming
 import Bifrost.Lemmas.Incoming
 import Bifrost.Props.C04
+import Bifrost.Lemmas.FramingEnd
 /-!
 C04, stream clause — "Every stream delivered on such a link reports that link's remote peer as
 its peer."
@@ -125,5 +126,15 @@ example :
       [0x61] (.opened .full)).mounted
       = some { pid := [0x61], streamPeer := [2], linkLocal := [1], linkRemote := [2], linkUUID := 7,
                unread := [], deadlineArmed := false } := by decide
+
+/-- The same on a stream whose `Read` hands out its final bytes together with the end of the
+stream (`n > 0, io.EOF`; `handleIncomingStreamE`): whatever is delivered reports the link's peers. -/
+theorem delivered_stream_reports_link_remote_any_end (max : Nat) (lnk : Incoming.Link) (cs : Reader)
+    (lastWithErr : Bool) (env : Lookup) (f : Facts)
+    (h : (handleIncomingStreamE max lnk cs lastWithErr env).delivered = some f) :
+    f.streamPeer = lnk.remotePeer ∧ f.linkRemote = lnk.remotePeer ∧
+    f.linkLocal = lnk.localPeer ∧ f.linkUUID = lnk.uuid := by
+  rw [handleIncomingStreamE_eq] at h
+  exact delivered_stream_reports_link_remote max lnk cs env f h
 
 end Bifrost.Props.C04Stream
